@@ -180,6 +180,25 @@ impl SampleBuffer {
     }
 }
 
+/// Number of events recorded so far for every event dimension.
+///
+/// Not every field of an event dimension is present on every event (the energy
+/// error of a divergence caused by a logp error is missing, optional fields may be
+/// switched off), so the count of a dimension is the largest count over its fields.
+pub fn event_counts(
+    event_dim_of_stat: &HashMap<String, String>,
+    stats_buffers: &HashMap<String, SampleBuffer>,
+) -> HashMap<String, u64> {
+    let mut counts: HashMap<String, u64> = HashMap::new();
+    for (field, dim) in event_dim_of_stat {
+        if let Some(buf) = stats_buffers.get(field.as_str()) {
+            let count = counts.entry(dim.clone()).or_insert(0);
+            *count = (*count).max(buf.total_pushed());
+        }
+    }
+    counts
+}
+
 /// Convert a Value to Zarr data type, length, and fill value for coordinate arrays
 ///
 /// Returns a tuple of (data_type, length, fill_value) extracted from the Value
